@@ -263,6 +263,8 @@ class E:
             return "(%r as %s).%s" % (a[0], a[1], a[2])
         if k == "phi":
             return "phi(%s)" % ", ".join(map(repr, a[0]))
+        if k == "mutated":
+            return "mut#%d<%r>" % (a[1], a[0])
         if k == "agg":
             return "%s{%s}" % (a[0], ", ".join("%s: %r" % kv for kv in a[1].items()))
         return "%s(%s)" % (k, ", ".join(map(repr, a)))
@@ -318,6 +320,39 @@ class Analysis:
                     d.setdefault(t.dest.local, []).append((b.idx, len(b.stmts), t))
             self._defs = d
         return self._defs
+
+    def mutation_points(self):
+        """local -> [(bb, idx)] where the local (not what it points to) is
+        partially written or mutably borrowed: after such a point its defining
+        expression alone no longer describes its value"""
+        if getattr(self, "_mutpts", None) is None:
+            m = {}
+            fn = self.fn
+            for b in fn.blocks:
+                if b.cleanup:
+                    continue
+                for i, s in enumerate(b.stmts):
+                    if s.kind != "assign":
+                        continue
+                    if s.place.proj and s.place.proj[0] != "deref":
+                        m.setdefault(s.place.local, []).append((b.idx, i))
+                    if s.rv.kind in ("ref", "rawptr") and s.rv.j.get("mut") and s.rv.place.proj[:1] != ["deref"]:
+                        m.setdefault(s.rv.place.local, []).append((b.idx, i))
+                t = b.term
+                if t.kind == "call" and t.dest is not None and t.dest.proj and t.dest.proj[0] != "deref":
+                    m.setdefault(t.dest.local, []).append((b.idx, len(b.stmts)))
+            self._mutpts = m
+        return self._mutpts
+
+    def mutated_before(self, local, bb, idx):
+        for mb, mi in self.mutation_points().get(local, ()):
+            if mb == bb and mi < idx:
+                return True
+            if mb != bb and mb in self.cfg.succ and bb in self.cfg.reach(mb):
+                return True
+            if mb == bb and mi >= idx and any(bb in self.cfg.reach(s0) for s0 in self.cfg.succ.get(bb, [])):
+                return True  # around a loop
+        return False
 
     def unique_def(self, local):
         ds = self.defs().get(local, [])
@@ -399,6 +434,8 @@ class Analysis:
             e = alts[0]
         else:
             e = E("phi", alts)
+        if local in self.mutation_points() and self.mutated_before(local, bb, idx):
+            e = E("mutated", e, local)
         self._expr_cache[key] = e
         return e
 
@@ -723,6 +760,15 @@ def is_transparent_call(e):
     if n in ("as_slice", "as_bytes", "as_str", "as_mut_slice") and c.krate in ("core", "alloc", "std", "bytes"):
         return True
     return False
+
+
+def unmut(e):
+    """look through the `mutated` marker (for rules that account for the
+    mutations of a local themselves, e.g. via Analysis.events)"""
+    e = strip(e)
+    while e.k == "mutated":
+        e = strip(e.a[0])
+    return e
 
 
 def strip(e):
